@@ -72,18 +72,18 @@ func (o *obsCtx) Done() <-chan struct{} {
 // ---------------------------------------------------------------- case model
 
 type request struct {
-	k      int
-	entry  string // SendIQ SendIQElement EncodeIQ EncodeIQElement UnmarshalIQ UnmarshalIQElement IterIQ IterIQElement SendMessage SendMessageElement EncodeMessage SendPresence SendPresenceElement EncodePresence
-	kind   string // iq message presence
-	scen   string // normal twice wrongkind unknownid late never handoff reqwait pre afterdelivery
-	reply  string // result error (iq); always error for message/presence
-	read   string // none some all (how much of the response is read before Close)
-	hold   bool   // keep the response open while another stanza queues up behind it
+	k     int
+	entry string // SendIQ SendIQElement EncodeIQ EncodeIQElement UnmarshalIQ UnmarshalIQElement IterIQ IterIQElement SendMessage SendMessageElement EncodeMessage SendPresence SendPresenceElement EncodePresence
+	kind  string // iq message presence
+	scen  string // normal twice wrongkind unknownid late never handoff reqwait pre afterdelivery
+	reply string // result error (iq); always error for message/presence
+	read  string // none some all (how much of the response is read before Close)
+	hold  bool   // keep the response open while another stanza queues up behind it
 	// while the response is held (handed over, partly read, not closed) the
 	// caller's context ends: the response stays the caller's until it closes it
 	cancelHeld bool
-	early  bool   // racing scenarios: feed the reply as soon as the request is on the wire
-	nsForm string // "" or stream namespace on the request element
+	early      bool   // racing scenarios: feed the reply as soon as the request is on the wire
+	nsForm     string // "" or stream namespace on the request element
 
 	// results
 	ctx       *obsCtx
